@@ -726,13 +726,47 @@ func requiredPropagationRule(c *an.Ctx, rule string, dirs ...string) {
 						continue
 					}
 					n++
+					// the collections this loop stores its element into: receivers of X.Set(…) in the body
+					targets := map[types.Object]bool{}
+					var firstStore token.Pos
+					ast.Inspect(body, func(m ast.Node) bool {
+						if sc, ok := m.(*ast.CallExpr); ok {
+							if sel, ok := sc.Fun.(*ast.SelectorExpr); ok && sel.Sel.Name == "Set" {
+								if root := an.RootIdent(sel.X); root != nil {
+									if o := an.ObjOf(info, root); o != nil {
+										targets[o] = true
+										if firstStore == token.NoPos || sc.Pos() < firstStore {
+											firstStore = sc.Pos()
+										}
+									}
+								}
+							}
+						}
+						return true
+					})
+					mentionsTarget := func(e ast.Node) bool {
+						hit := false
+						ast.Inspect(e, func(m ast.Node) bool {
+							if id, ok := m.(*ast.Ident); ok && targets[an.ObjOf(info, id)] {
+								hit = true
+							}
+							return true
+						})
+						return hit
+					}
 					skipped := ""
 					for _, before := range body.List[:i] {
 						// `if x == nil { continue }`: the element does not exist, there is nothing to propagate
-						if bis, ok := before.(*ast.IfStmt); ok && bis.Else == nil {
+						bis, isIf := before.(*ast.IfStmt)
+						if isIf && bis.Else == nil {
 							if cmp, ok := an.Unparen(bis.Cond).(*ast.BinaryExpr); ok && cmp.Op == token.EQL && an.IsNilIdent(info, cmp.Y) {
 								continue
 							}
+						}
+						// a guard that consults another collection before the element is stored filters the element out
+						// of the mapping altogether: nothing stays behind without its flag
+						if isIf && len(targets) > 0 && before.End() < firstStore && !mentionsTarget(bis.Cond) && (bis.Init == nil || !mentionsTarget(bis.Init)) {
+							continue
 						}
 						ast.Inspect(before, func(m ast.Node) bool {
 							switch y := m.(type) {
